@@ -1,8 +1,11 @@
 #!/bin/sh
-# usage: refcheck.sh [pattern]  -- run every behaviour-preserving refactoring kept under /verif/refactors (and every R fixture patch) through all
-# quick checks on scratch copies; prints only alarms. None of these may raise one.
+# usage: refcheck.sh [pattern]  -- run every behaviour-preserving refactoring kept under /verif/refactors and every correct change under
+# /verif/features through all quick checks on scratch copies; prints only alarms. None of these may raise one, except the re-designs listed in
+# features/KNOWN-FAIL-CLOSED.txt (documented anchor alarms, DESIGN.md 12.13), which are skipped.
 cd /verif
 for p in refactors/${1:-*}.diff features/${1:-*}.diff; do
+  [ -f "$p" ] || continue
+  if grep -q "^$(basename $p) " features/KNOWN-FAIL-CLOSED.txt 2>/dev/null; then continue; fi
   tools/allcheck.sh /verif/$p 2>&1 | grep -v "^WARNING conda" | grep -v "^done " | sed "s#^#[$p] #"
 done
 echo "refcheck finished"
